@@ -284,7 +284,7 @@ pub fn run(r: &Report) {
          non-trivial = distinct input encodings / distinct JSON renderings",
     );
     let f = gen::fixtures();
-    let amounts = [RValue::Explicit(1000), RValue::Conf(f.comms[0])];
+    let amounts = [RValue::Explicit(1000), RValue::Conf(f.comms[0]), RValue::Null];
     let keys = [RValue::Null, RValue::Explicit(5), RValue::Conf(f.comms[1])];
     let mut cases = Vec::new();
     for tp in 0..8usize {
@@ -296,6 +296,9 @@ pub fn run(r: &Report) {
                             for pegin in [false, true] {
                                 if vout == 0xffff_ffff && (pegin || tp != 0) {
                                     continue;
+                                }
+                                if *a == RValue::Null && *k == RValue::Null {
+                                    continue; // not an issuance
                                 }
                                 // thin the payload cross product: txid pattern x entropy pattern only on the diagonal +- 1
                                 if !r.tier.thorough() && !(tp == ep || tp == (ep + 1) % 8 || vout == 0) {
